@@ -1,0 +1,15 @@
+//go:build verif
+
+package storage
+
+// Contracts for the verif build tag (comment-only; see /verif/DESIGN.md).
+
+// C09, what System.Storage.Find hands to the contract: the key of every returned entry is a byte
+// string of its own - the key received from the scan, or a newly allocated prefix+key - never a
+// slice of the iterator's prefix buffer, which the next entry would overwrite.
+//@ prop C09
+//@ func (*Iterator).Value
+//@ may-panic
+//@ opt frame off
+//@ requires s != nil
+//@ call NewByteArray requires[ownkey] len(arg0) == 0 || fresh(arg0) || same(arg0, old(s.curr.Key)) || same(arg0, old(s.curr.Value))
